@@ -13,7 +13,7 @@
      [A10] (shape (1,0): np.array([], dtype=np.int32, ndmin=2)).  Integers are unbounded (np.int32 overflow is
      not modelled), np.asarray(list of str) is the list.
    * int(str) / float(str) are the oracles tok_int / tok_float of Model/Oscar.v (None = ValueError).
-   * Particle(...) and __apply_kwargs_filters(...) are parameters of the generated section; [Particle_hand] and
+   * Particle(...) and __apply_kwargs_filters(...) are arguments of the generated section; [Particle_hand] and
      [akf_hand] below are the instances over which the source theorems are stated.
    * the error classes are those of Model/Oscar.v; [Err OtherError] also marks every operation this fragment does
      not describe (AttributeError, OSError, UnboundLocalError, exhausted loop fuel, shapes outside the above ...). *)
@@ -509,7 +509,7 @@ Definition py_seek (f off whence : ov) : result ov :=
   | _, _, _ => Err OtherError
   end.
 
-(* ------------------------------------------------------------------ the two parameters, over the hand model *)
+(* ------------------------------------------------------------------ Particle and the filters, over the hand model *)
 Definition strs_of (l : list ov) : option (list string) :=
   fold_right (fun v acc => match v, acc with OStr s, Some r => Some (s :: r) | _, _ => None end) (Some []) l.
 Definition parts_of (l : list ov) : option (list particle) :=
@@ -545,3 +545,74 @@ Definition akf_hand (F : ov -> list particle -> list particle) (events filters :
                        end
   | _ => Err OtherError
   end.
+
+(* ------------------------------------------------------------------ the vocabulary of the source theorems
+   (Proofs/OscarLoader_Source.v, Properties/SrcOscarLoader.v): rendered files, how the selector and the counts of
+   Model/Oscar.v appear as Python values, and the part of Model/Oscar.v's load after the header scan *)
+Definition tok_ok (t : string) : bool := no_char sp t && no_char nlc t.
+Definition line_ok (l : line) : Prop := l <> [] /\ forallb tok_ok l = true.
+Definition render_line (l : line) : string := join sp l ++ String nlc "".
+Fixpoint render_lines (ls : list line) : string :=
+  match ls with [] => "" | l :: t => join sp l ++ String nlc (render_lines t) end.
+
+(* the keyword argument events= of load: absent / an int / a pair of ints *)
+Definition sel_val (sel : selector) : option ov :=
+  match sel with SelAll => None | SelOne k => Some (OInt k) | SelRange a b => Some (OTuple [OInt a; OInt b]) end.
+Definition cnt_of (rows : list (Z * Z)) : arr := match rows with [] => A10 | _ => A2 rows end.
+Definition inj_cnt (c : list (Z * Z)) : arr := match c with [] => A1 [] | _ => A2 c end.
+(* the selector load() accepts (after its checks) *)
+Definition sel_ok (sel : selector) : Prop :=
+  match sel with SelAll => True | SelOne k => (0 <= k)%Z | SelRange a b => (0 <= a <= b)%Z end.
+Definition sel_nonneg (sel : selector) : Prop :=
+  match sel with SelAll => True | SelOne k => (0 <= k)%Z | SelRange a b => (0 <= a)%Z end.
+(* a method that returns an integer: which integer, as which kind of Python number is left open *)
+Definition int_of {A} (wrap : ov -> A) (r : result A) (h : result Z) : Prop :=
+  match h with Ok z => exists v, r = Ok (wrap v) /\ as_int v = Some z | Err e => r = Err e end.
+(* the object after set_oscar_format *)
+Definition fmt_state (self : oself) (fa : string * list string) : oself :=
+  let s := py_setattr self A_fmt (OStr (fst fa)) in
+  if (fst fa =? "ASCII")%string then py_setattr s A_attrs (enc_strs (snd fa)) else s.
+(* every event label of an "out" line is a numeral (the source converts it only after the whole scan) *)
+Definition labels_ok (ti : string -> option Q) (ls : list line) : Prop :=
+  Forall (fun l => kind_scan l = SOut -> forall e, nth_error l 2 = Some e -> ti e <> None) ls.
+(* the constructor filter of Model/Oscar.v: present iff filters= is given *)
+Definition flt_of (F : ov -> list particle -> list particle) (d : list (string * ov)) : option (list particle -> list particle) :=
+  match assoc "filters" d with Some fv => Some (F fv) | None => None end.
+(* Model/Oscar.v load, from num_skip on (what set_particle_list does) *)
+Definition load_tail tf ti pv flt (file : list line) sel fmt attrs (nev : Z) (sc : list (Z * Z) * list line) : result loaded :=
+  let cnts := fst sc in
+  ns <- num_skip sel cnts ;;
+  nr <- num_read sel cnts ;;
+  let body := skipn (Z.to_nat ns) file in
+  first_ok <- match body, Z.to_nat nr with
+              | l0 :: _, S _ => if negb (has "#" l0) && negb (has "out" l0) then Err ValueError else Ok tt
+              | _, _ => Ok tt
+              end ;;
+  st <- read_loop tf ti pv flt (sel_first sel) fmt attrs (Z.to_nat nr) body
+          {| plist := []; data := []; counts := sel_counts sel cnts; cut := 0 |} ;;
+  let nev' := (nev - cut st)%Z in
+  fin <- match sel with
+         | SelAll => if (Z.of_nat (List.length (plist st)) =? nev')%Z then Ok (nev', counts st) else Err IndexError
+         | _ => Ok (Z.of_nat (List.length (plist st)), counts st)
+         end ;;
+  Ok {| l_events := match plist st with [] => [[]] | pl => pl end;
+        l_nevents := fst fin; l_counts := snd fin; l_format := fmt; l_attrs := attrs;
+        l_footers := snd sc |}.
+Definition enc_foots (foots : list line) : ov := OList (map (fun l => OStr (render_line l)) foots).
+(* keyword arguments of load *)
+Definition keys_ok (d : list (string * ov)) : bool :=
+  forallb (fun kv => String.eqb "events" (fst kv) || String.eqb "filters" (fst kv)) d.
+Definition is_pyint (v : ov) : bool := py_isinstance v T_int.
+Definition opts_verdict (d : list (string * ov)) : option err :=
+  if negb (keys_ok d) then Some ValueError
+  else match assoc "events" d with
+       | Some (OTuple l) =>
+           if negb (forallb is_pyint l) then Some TypeError
+           else match l with
+                | [OInt a; OInt b] => if (b <? a)%Z then Some ValueError
+                                      else if (a <? 0)%Z || (b <? 0)%Z then Some ValueError else None
+                | _ => None
+                end
+       | Some (OInt k) => if (k <? 0)%Z then Some ValueError else None
+       | _ => None
+       end.
